@@ -5,8 +5,10 @@ pad/crop index maps) and the mathematics of one zero-extended filter-bank level 
 satisfying completeness (adjoint, perfect reconstruction, isometry; Haar instance; levels and axes); the executed
 multi-level 1-D list model incl. pywt.waverec's trimming rule (perfect reconstruction, adjoint, isometry at every
 level count and length) and the full 1-D sigpy pipeline fwt1/iwt1 (pad, wavedec, pack | unpack, waverec, crop);
-separable N-d at level 1 over an arbitrary list of axes; `Complete` from the orthonormality of dec_lo alone when
-dec_hi is its alternating flip (checked for every pywt wavelet by the `filters` stream).
+separable N-d at level 1 over an arbitrary list of axes; multi-level N-d (Props/C10Ml.lean: recursion on the approximation
+block, coeffs_to_array's block layout with zero filling, padding/crop) isometry / adjoint / perfect reconstruction for
+every level count, rank, axes list and shape, on the advertised box; `Complete` from the orthonormality of dec_lo alone
+when dec_hi is its alternating flip (checked for every pywt wavelet by the `filters` stream).
 Contract side (this file, `correspond`): PyWavelets' filters satisfy the hypotheses (1e-10) and its
 dwt/idwt/wavedec/waverec/packing compute the modelled formulas — the Lean driver executes the model exactly
 in rationals (float filter taps are dyadic rationals and are passed exactly; inputs are integers) and the
@@ -25,7 +27,7 @@ from harness import common
 from harness.translate import gen as G
 
 PROPERTY = "C10"
-LEAN_MODULES = ["SigpyVerif.Props.C10"]
+LEAN_MODULES = ["SigpyVerif.Props.C10", "SigpyVerif.Props.C10Ml"]
 THEOREMS = ["SigpyVerif.C10." + t for t in [
     "zshape_spec", "zshape_sites_agree", "shape_consistent", "inverse_mirrors_forward", "pad_extra_zero_in_front",
     "crop_is_pad_adjoint", "pad_crop",
@@ -47,6 +49,14 @@ THEOREMS = ["SigpyVerif.C10." + t for t in [
     # Complete from the orthonormality of dec_lo alone (dec_hi = alternating flip)
     "finsum_even_odd", "finsum_shift2", "finsum_flip2", "ofList_altFlipL", "supportedOn_altFlip",
     "complete_of_qmf_pair", "complete_of_orthonormal_lo", "fwt1_iwt1_id_qmf", "fwt1_isometry_qmf", "ofList_haar",
+    # multi-level N-d (Props/C10Ml.lean): coeffs_to_array's block layout incl. zero filling, recursion on the approximation block
+    "tabM_app", "fwtnRecM_app", "iwtnRecM_app", "fwtnM_app", "iwtnM_app",
+    "inBoxB_iff", "inBox_iff", "boxSum_congr", "boxSum_indicator", "shapeAxes_map", "le_packedLen", "sum_packed_axis",
+    "applyAxes_vanish_other", "applyAxes_left_inverse_on",
+    "levelMap_isIso", "levelMap_isAdj", "levelMap_isInv", "levelMap_zero", "shapeAxes_lvSteps", "lvSteps_vanish",
+    "lvSteps_zero_filling", "fwtnRec_isometry", "fwtnRec_adjoint", "fwtnRec_pr",
+    "shapeAxes_padSteps", "zShape_eq_gen", "padMap_eq_gen",
+    "fwtn_isometry", "fwtn_adjoint", "fwtn_pr", "fwtnOutShape_eq_waveShape", "maxLevel_spec",
 ]]
 
 FAMILIES = ("haar", "db", "sym", "coif")
@@ -479,6 +489,132 @@ def stream_separable(ctx, rng, names):
                "%d disagreements between per-axis composition of the 1-D model and N-D sp.fwt(level=1)" % bad)
 
 
+
+def _nd_cost(shape, tr, L, level):
+    """rational work of the N-d model ~ packed size x (filter length + axis length) per transformed axis"""
+    J = 3 if level is None else level
+    out = 1
+    for a, n in enumerate(shape):
+        z = n + n % 2
+        if a in tr:
+            ns = [z]
+            for _ in range(J):
+                ns.append((ns[-1] + L - 1) // 2)
+            out *= ns[-1] + sum(ns[1:])
+        else:
+            out *= z
+    return out * max(1, len(tr)) * (L + max(shape))
+
+
+def stream_nd_levels(ctx, rng, names):
+    """MULTI-LEVEL N-D: the executed Lean model `fwtnM`/`iwtnM` (= `fwtn`/`iwtn` of fwtn_isometry/_adjoint/_pr, by
+    fwtnM_app/iwtnM_app) vs sp.fwt / linop.Wavelet and sp.iwt / Wavelet.H: integer data, float taps passed exactly as
+    dyadic rationals, every value of the packed array compared (block offsets, zero filling, recursion on the
+    approximation block only, odd sizes, axes subsets incl. negative / mixed / reordered spelling, level None/1/2/3);
+    `iwtn` on ARBITRARY integer coefficient arrays (non-zero values in the zero filling included)."""
+    import pywt
+    import sigpy as sp
+    from sigpy import linop
+    n_cases = 70 if ctx.tier == "quick" else 420
+    budget = 60000 if ctx.tier == "quick" else 250000
+    short = [w for w in names if pywt.Wavelet(w).dec_len <= 8] or ["haar"]
+    fixed = [("haar", (5, 6), None, 2), ("db2", (8, 3), None, 2), ("db2", (7, 8), (1,), None), ("db2", (6, 5, 4), (0, 2), 2),
+             ("db3", (9, 10), (-1, 0), 2), ("haar", (16, 16), None, None), ("db2", (8, 8), (-2, -1), 3), ("db4", (3, 3, 3), None, 2),
+             ("db2", (13,), (-1,), 3), ("haar", (2, 3, 5), (1, -1), None), ("sym4", (10, 7), (0,), 2), ("db2", (24, 4), None, None)]
+    cases = [c for c in fixed if c[0] in all_wavelets()]
+    while len(cases) < n_cases:
+        name = rng.choice(short if rng.random() < 0.7 else names)
+        L = pywt.Wavelet(name).dec_len
+        nd = rng.choice([1, 2, 2, 2, 3, 3])
+        shape = tuple(rng.randint(1, {1: 40, 2: 13, 3: 6}[nd]) for _ in range(nd))
+        axes = rng.choice(subsets(nd))
+        level = rng.choice([None, 1, 2, 2, 3, 3])
+        if _nd_cost(shape, norm_axes(axes, nd), L, level) <= budget:
+            cases.append((name, shape, axes, level))
+    lines, meta = [], []
+    for name, shape, axes, level in cases:
+        _, f = filt(name)
+        nd = len(shape)
+        ax = norm_axes(axes, nd)
+        x = np.array([rng.randint(-9, 9) for _ in range(int(np.prod(shape)))]).reshape(shape)
+        try:
+            osh, sl = sp.wavelet.get_wavelet_shape(shape, name, axes, level)
+        except Exception as e:  # noqa
+            osh, sl = None, None
+        seed = rng.randint(0, 10 ** 6)
+        c = np.random.RandomState(seed).randint(-9, 10, size=osh) if osh is not None else None
+        lines.append("C10 fwtn %s sh=%s ax=%s level=%s x=%s" % (f, IL(shape), IL(ax), lv(level), IL(x.ravel())))
+        meta.append(("fwtn", name, shape, axes, level, x, None, None))
+        if c is not None:
+            lines.append("C10 iwtn %s sh=%s ax=%s level=%s c=%s" % (f, IL(shape), IL(ax), lv(level), IL(c.ravel())))
+            meta.append(("iwtn", name, shape, axes, level, c, sl, seed))
+    replies = ctx.driver_guarded(lines, chunk=20, chunk_timeout=60, line_timeout=30)
+    bad = skipped = 0
+    for (kind, name, shape, axes, level, data, sl, seed), r in zip(meta, replies):
+        if r == "err model-timeout":
+            skipped += 1
+            continue
+        case = dict(kind="ndlevels", op=kind, wavelet=name, shape=list(shape), axes=None if axes is None else list(axes), level=level)
+        nontrivial_gap = False
+        for via in ("fn", "linop"):
+            try:
+                if kind == "fwtn":
+                    impl = (sp.fwt(data.astype(float), wave_name=name, axes=axes, level=level) if via == "fn"
+                            else linop.Wavelet(shape, axes=axes, wave_name=name, level=level)(data.astype(float)))
+                else:
+                    impl = (sp.iwt(data.astype(float), shape, sl, wave_name=name, axes=axes, level=level) if via == "fn"
+                            else linop.Wavelet(shape, axes=axes, wave_name=name, level=level).H(data.astype(float)))
+            except Exception as e:  # noqa
+                impl = "err %s" % type(e).__name__
+            model = None
+            if r.startswith("ok "):
+                try:
+                    if kind == "fwtn":
+                        sh_s, v_s = r[3:].split(" | ")
+                        model = np.array(parse_rats(v_s)).reshape(parse_ints(sh_s))
+                    else:
+                        model = np.array(parse_rats(r[3:])).reshape(shape)
+                except Exception as e:  # noqa
+                    model = None
+            ctx.case(("ndlevels", kind, name, tuple(shape), axes, level, via, data.ravel().tolist()),
+                     sample=dict(op=kind, wavelet=name, shape=list(shape), axes=axes, level=level, via=via, reply=r[:80])
+                     if ctx.evaluations % 61 == 0 else None)
+            ctx.count("ndlevels:%s:%dd:%s" % (kind, len(shape), "odd" if any(s % 2 for s in shape) else "even"))
+            ok = model is not None and isinstance(impl, np.ndarray) and impl.shape == model.shape and _cmp(impl, model)
+            if not ok:
+                bad += 1
+                ctx.disagree("ndlevels", dict(case, via=via),
+                             impl if isinstance(impl, str) else dict(shape=list(impl.shape), head=np.asarray(impl).ravel()[:6].tolist()),
+                             r[:120] if model is None else dict(shape=list(model.shape), head=model.ravel()[:6].tolist()))
+    if skipped:
+        ctx.notes.append("ndlevels: %d requests not compared (model time-out)" % skipped)
+    ctx.oblige("correspondence:C10.ndlevels", "correspondence", bad == 0 and skipped <= len(lines) // 4,
+               "%d disagreements (%d not compared) between the executed multi-level N-d Lean model (fwtnM/iwtnM) and "
+               "sp.fwt/sp.iwt/Wavelet(.H)" % (bad, skipped))
+
+
+def stream_maxlevel(ctx):
+    """`level=None`: the model's `maxLevel` (maxLevel_spec: largest J with (L-1)*2^J <= n) vs pywt.dwt_max_level, and the
+    N-d rule of wavedecn (smallest over the transformed axes) through get_wavelet_shape's number of slices"""
+    import pywt
+    import sigpy as sp
+    ns = list(range(0, 140)) + [255, 256, 257, 1023, 1024, 4095, 4096, 10 ** 6]
+    Ls = list(range(2, 42, 2)) + [76, 102]
+    rep = ctx.driver(["C10 maxlevel n=%s L=%d" % (IL(ns), L) for L in Ls])
+    bad = 0
+    for L, r in zip(Ls, rep):
+        model = parse_ints(r[3:]) if r.startswith("ok ") else r
+        impl = [int(pywt.dwt_max_level(n, L)) for n in ns]
+        want = [max([J for J in range(0, 40) if (L - 1) * 2 ** J <= n] or [0]) for n in ns]   # the statement of maxLevel_spec
+        ctx.case(("maxlevel", L))
+        ctx.count("maxlevel")
+        if model != impl or impl != want:
+            bad += 1
+            ctx.disagree("maxlevel", dict(kind="maxlevel", L=L), impl, model)
+    ctx.oblige("correspondence:C10.maxlevel", "correspondence", bad == 0,
+               "%d filter lengths where maxLevel differs from pywt.dwt_max_level / the closed form" % bad)
+
+
 class _Rec:
     """records the PyWavelets calls sigpy.wavelet makes"""
 
@@ -604,7 +740,10 @@ def correspond(ctx):
                 "pywt.waverec on arbitrary integer coefficient lists (trimming rule); 1-D: wavelet x length (incl. L-1, L, L+1, odd) x level x axes "
                 "spelling with integer data, exact rational model vs float impl at 1e-10, both entry points; shapes: wavelet x "
                 "shape (1-3 D, odd/even/shorter than the filter) x axes subset (incl. negative/mixed/reordered) x level; "
-                "separable: N-D level-1 by per-axis composition of the model; packing/reified: labelled coefficient sets and "
+                "separable: N-D level-1 by per-axis composition of the model; ndlevels: wavelet (short filters favoured) x 1-3 D shape "
+                "(odd sizes) x axes subset/spelling x level None/1/2/3 with integer data through the executed multi-level N-d model, forward "
+                "on arrays and inverse on arbitrary coefficient arrays, both entry points; maxlevel: lengths 0..139 + powers of two x even "
+                "filter lengths; packing/reified: labelled coefficient sets and "
                 "recorded PyWavelets calls. Cases are distinct by (stream, wavelet, shape/length, axes, level, data); all are "
                 "non-trivial (non-empty arrays; labelled or random non-constant data)")
     rng = ctx.rng
@@ -616,10 +755,21 @@ def correspond(ctx):
         "statements about filters satisfying them exactly",
         "Complete is proved from the orthonormality of dec_lo alone when dec_hi is its alternating flip (complete_of_qmf_pair); that "
         "dec_hi IS the alternating flip of dec_lo is checked for every pywt wavelet on every run (filters stream, observed exact); the general "
-        "Orthonormal -> Complete (polyphase / dimension count, g not assumed to be the flip) is not proved",
-        "N-d: proved at level 1 for an arbitrary list of axes (function model, tied to the executed 1-D model by fwt1_level1_eq and the "
-        "separable stream); multi-level N-d (pywt recurses on the approximation block only and coeffs_to_array lays the detail blocks out at "
-        "offsets given by the approximation shapes) is validated by the search oracle and the packing/shapes streams, not proved",
+        "Orthonormal -> Complete (g not assumed to be the flip) is TRUE for finitely supported filters but not proved here: it is the statement "
+        "that the 2x2 polyphase matrix E(z) over the commutative ring of Laurent polynomials with E(z) E~(z) = I also has E~(z) E(z) = I "
+        "(left inverse = right inverse for square matrices over a commutative ring, Mathlib Matrix.mul_eq_one_comm); what is missing is the "
+        "translation of the finsum-over-Z identities into Laurent-polynomial matrix identities. The contract does not NEED the flip "
+        "mathematically; the proof available does, and the flip is an exactly checkable (bit-for-bit) property of the taps whereas the "
+        "orthonormality sums hold only to 1e-11",
+        "N-d, ALL levels: proved (Props/C10Ml.lean: fwtn_isometry/_adjoint/_pr over the advertised box, fwtnOutShape_eq_waveShape) for the "
+        "model fwtn/iwtn of pywt.wavedecn + coeffs_to_array | array_to_coeffs + waverecn (recursion on the approximation block, detail blocks "
+        "at the accumulated offsets, zero filling); that PyWavelets' Python layer computes this model is a CONTRACT validated value by value "
+        "by the ndlevels stream (the executed twins fwtnM/iwtnM are proved equal to fwtn/iwtn: fwtnM_app/iwtnM_app)",
+        "axes: the model takes a duplicate-free list of axes already reduced mod ndim (PyWavelets raises on repeated axes; sigpy forwards the "
+        "axes tuple unchanged, negative entries index shape[ax] like numpy) - the ndlevels/shapes streams call the real code with the "
+        "unnormalised tuple and the model with a % ndim",
+        "level=None: pywt.dwt_max_level is PyWavelets' C code (contract); the model's maxLevel is proved to be the largest J with (L-1)*2^J <= n "
+        "(maxLevel_spec) and compared with pywt.dwt_max_level on every run (maxlevel stream)",
         "complex inputs: PyWavelets transforms real and imaginary parts separately (validated by the search oracle on complex data)",
     ]
     ctx.trusted += ["PyWavelets %s (C implementation of dwt/idwt and its Python multilevel/packing layer): contract validated by "
@@ -630,6 +780,7 @@ def correspond(ctx):
                      (stream_1d, (rng, names if ctx.tier == "thorough" else names[:: 2] + names[-3:])),
                      (stream_levels, (rng, names if ctx.tier == "thorough" else names[1:: 2] + names[-2:])),
                      (stream_shapes, (rng, names)), (stream_separable, (rng, names)),
+                     (stream_nd_levels, (rng, names)), (stream_maxlevel, ()),
                      (stream_packing_reified, (rng, names))]:
         t = time.time()
         fn(ctx, *args)
@@ -770,7 +921,7 @@ def gen_oracle_cases(ctx, rng, names, budget):
 def _case_from_disagreement(d, rng):
     cc = d["case"]
     out = []
-    if cc.get("kind") in ("shape", "packing", "reified", "separable"):
+    if cc.get("kind") in ("shape", "packing", "reified", "separable", "ndlevels"):
         for cplx in (False, True):
             out.append(dict(wavelet=cc["wavelet"], shape=cc["shape"], axes=cc.get("axes"), level=cc.get("level", 1), cplx=cplx,
                             seed=rng.randint(0, 10 ** 6)))
@@ -784,6 +935,11 @@ def _case_from_disagreement(d, rng):
         for cplx in (False, True):
             out.append(dict(wavelet=cc["wavelet"], shape=[cc["n"]], axes=None, level=cc["level"], cplx=cplx,
                             seed=rng.randint(0, 10 ** 6)))
+    elif cc.get("kind") == "maxlevel":
+        for n in (cc["L"] - 1, 2 * (cc["L"] - 1), 4 * (cc["L"] - 1) + 1, 37):
+            if n >= 1 and cc["L"] in (2, 4, 6, 8):
+                out.append(dict(wavelet={2: "haar", 4: "db2", 6: "db3", 8: "db4"}[cc["L"]], shape=[n], axes=None, level=None,
+                                cplx=False, seed=rng.randint(0, 10 ** 6)))
     elif cc.get("kind") == "padcrop":
         for name in ("haar", "db4"):
             out.append(dict(wavelet=name, shape=[cc["i"]], axes=None, level=1, cplx=False, seed=rng.randint(0, 10 ** 6)))
